@@ -109,6 +109,36 @@ func r021(c *Ctx, r *R) {
 						r.Bad(m.name+":queued-item", sel.Pos(), "%s queues an item with isPin/pin different from the request (isPin ok=%v, pin ok=%v)", m.name, isPinOK, pinOK)
 					}
 				}
+				// ... or the true answer of a helper that does exactly that
+				// (`if !css.enqueue(ctx, isPin, pin) { return error }`)
+				if !ok {
+					for _, g := range lf.Guards() {
+						hc, _ := originCallLocal(g.Cond)
+						if hc == nil || !g.Branch {
+							continue
+						}
+						h := hc.Common().StaticCallee()
+						sum := enqueueHelper(h)
+						if sum == nil {
+							continue
+						}
+						args := hc.Common().Args
+						pinOK := sum.pinParam >= 0 && sum.pinParam < len(args) && paramIndex(f, args[sum.pinParam]) == 2
+						isPinOK := false
+						if sum.isPinParam >= 0 && sum.isPinParam < len(args) {
+							if kp, isK := constOf(args[sum.isPinParam]); isK && kp != nil && constant.BoolVal(kp) == m.isPin {
+								isPinOK = true
+							}
+						} else if sum.isPinConst != nil && *sum.isPinConst == m.isPin {
+							isPinOK = true
+						}
+						if pinOK && isPinOK {
+							ok = true
+						} else {
+							r.Bad(m.name+":queued-item", hc.Pos(), "%s queues (through %s) an item with isPin/pin different from the request (isPin ok=%v, pin ok=%v)", m.name, h.Name(), isPinOK, pinOK)
+						}
+					}
+				}
 				okB := batching(lf.Block, true)
 				sawEnq = sawEnq || (ok && okB)
 				r.Check(ok && okB, m.name+":nil-after-enqueue", lf.Pos, "nil is returned on the arm that sent the operation to the batch queue", m.name+" returns nil without having queued the operation (or outside the batching branch)")
@@ -668,4 +698,76 @@ func sizeZeroTest(pkg *packages.Package, be *ast.BinaryExpr, isCounter func(ast.
 		return false, true
 	}
 	return false, false
+}
+
+// enqueueSummary describes a helper that hands one item to the batch queue
+// without blocking and answers whether it did.
+type enqueueSummary struct {
+	pinParam, isPinParam int
+	isPinConst           *bool
+}
+
+// enqueueHelper recognises such a helper: its bool result is true only on
+// the send arm of a non-blocking select on batchItemCh and false otherwise,
+// and the item sent is built from its parameters.
+func enqueueHelper(h *ssa.Function) *enqueueSummary {
+	if h == nil || h.Blocks == nil || h.Signature.Results().Len() != 1 || h.Signature.Results().At(0).Type().String() != "bool" {
+		return nil
+	}
+	sum := &enqueueSummary{pinParam: -1, isPinParam: -1}
+	sawTrue := false
+	for _, lf := range returnLeaves(h, 0) {
+		k, isK := constOf(lf.Val)
+		if !isK || k == nil {
+			return nil
+		}
+		sent := false
+		for _, g := range lf.Guards() {
+			x, kk, tme, isEq := eqConst(g.Cond)
+			if !isEq || tme != g.Branch {
+				continue
+			}
+			sel := selectIndexOf(x)
+			if sel == nil || sel.Blocking {
+				continue
+			}
+			idx, _ := constant.Int64Val(kk)
+			if idx < 0 || int(idx) >= len(sel.States) {
+				continue
+			}
+			st := sel.States[idx]
+			fld, _ := fieldLoad(st.Chan)
+			if st.Dir != types.SendOnly || fld == nil || fld.Name() != "batchItemCh" {
+				continue
+			}
+			sent = true
+			fields := structLitFields(st.Send)
+			if fields["pin"] != nil {
+				sum.pinParam = paramIndex(h, fields["pin"])
+			}
+			if fields["isPin"] != nil {
+				if kp, isK := constOf(fields["isPin"]); isK && kp != nil {
+					b := constant.BoolVal(kp)
+					sum.isPinConst = &b
+				} else {
+					sum.isPinParam = paramIndex(h, fields["isPin"])
+				}
+			} else {
+				b := false
+				sum.isPinConst = &b
+			}
+		}
+		if constant.BoolVal(k) {
+			if !sent {
+				return nil // true without having sent
+			}
+			sawTrue = true
+		} else if sent {
+			return nil // false although it sent
+		}
+	}
+	if !sawTrue || sum.pinParam < 0 {
+		return nil
+	}
+	return sum
 }
